@@ -43,7 +43,7 @@ public:
 	template <typename T>
 	bool set(const T &val)
 	{
-		return set(type_properties<T>::id(true), &val);
+		return set(type_properties<T>::id(true), &val) >= 0;
 	}
 #else
 # define MPT_PROPERTY_INIT { 0, 0, MPT_VALUE_INIT(0, 0), { 0 } }
